@@ -18,7 +18,7 @@ RUN_MODULE = "Run.EngineRun"
 VERDICT_FN = "verdict_C12_any"
 CHUNK = 100
 DRIVER_ERR = eng.DRIVER_ERR
-K = dict(attr_guards=0.35, cbs=0.55, conv=0.4, guards=0.5, guard_max=2, validators=0.3, listeners=(1, 4), multi_prov=0.55, sends=0.05,
+K = dict(falsy_listeners=0.25, attr_guards=0.35, cbs=0.55, conv=0.4, guards=0.5, guard_max=2, validators=0.3, listeners=(1, 4), multi_prov=0.55, sends=0.05,
          raises=0.03, multi_event=0.4, p_async=0.0, rtc_false=0.1, ops=(3, 10), p_construct=0.0, share_groups=0.1,
          falsy_model=0.15, inst_listeners=0.3, lstyles=0.35, stateid_names=0.25)
 
@@ -178,6 +178,24 @@ def copy_attach_probe(sc):
         return m.send("go")
     with warnings.catch_warnings():
         warnings.simplefilter("ignore")
+        if sc.get("shared_list"):
+            # two machines constructed from the very same list object; a listener attached to one of them later
+            # belongs to that one only - the other machine, its copies and the caller's list never see it
+            given = [L()]
+            a, other = M(listeners=given), M(listeners=given)
+            x = L()
+            a.add_listener(x)
+            for m in [other] + [(copy.deepcopy if rng.random() < 0.5 else copy.copy)(other) for _ in range(2)] + [M(listeners=given)]:
+                fire(m)
+                fire(m)
+            if x.calls:
+                bad.append(f"a listener attached to one machine was invoked {x.calls} time(s) by another machine built from the same list")
+            if len(given) != 1:
+                bad.append("the caller's list of listeners was changed")
+            fire(a)
+            if x.calls != 1:
+                bad.append(f"the machine it was attached to invoked it {x.calls} time(s) for one event")
+            return {"probe": "copy_attach", "bad": bad}
         a = M(listeners=[L()])
         if rng.random() < 0.5 or via != "send":
             fire(a)
@@ -391,6 +409,8 @@ def generate(rng, tier):
     for k in range(24):
         pr.append({"probe": "copy_attach", "seed": rng.randrange(10 ** 6), "first": ["copy", "deepcopy"][k % 2],
                    "side": ["copy", "original"][(k // 2) % 2]})
+    for k in range(4):
+        pr.append({"probe": "copy_attach", "seed": rng.randrange(10 ** 6), "first": "copy", "side": "copy", "shared_list": True})
     texts = ["level >= 2", "level > 1 and ready", "not blocked", "ready", "level == 2 or blocked", "level != 0"]
     for k in range(12):
         pr.append({"probe": "expr_late", "seed": rng.randrange(10 ** 6), "text": texts[k % len(texts)],
